@@ -1,1 +1,123 @@
-import CnlModel.Basic
+import CnlProofs.Sqrt
+/-!
+# C19 — `cnl::sqrt` returns the floor of the square root at the result's resolution
+
+`Cnl.Sqrt.sqrtInt T x` is the model of `cnl::sqrt(Integer const&)` (`_impl/cmath/sqrt.h`) for a
+built-in integer type `T = ⟨bits, signed⟩` of **any** width, written over the C++ integer
+semantics of `CnlModel.CInt`: the result `Res` carries undefined behaviour (overflow of
+`root + bit` in `decltype(root + bit)`, a bad shift count), a failed `CNL_ASSERT`
+(`unreachable`) and non-termination of either loop (`diverges`, the loops carry explicit fuel).
+`Cnl.Sqrt.sqrtNum` adds the `elastic_integer`, `wide_integer` and `scaled_integer` overloads.
+`Cnl.SqrtSpec.IsFloorSqrt x r` is `0 ≤ r ∧ r² ≤ x < (r+1)²`; `IsScaledFloorSqrt` is the same
+inequality between the rationals the scaled representations denote; `FitsDigits d r` is `0 ≤ r < 2^d`.
+
+Every theorem is stated for all widths / digit counts / exponents / radices and all inputs the
+property quantifies over; `… = .ok (…)` says in one go that the evaluation is free of undefined
+behaviour, does not assert, and terminates.  Nothing is `_partial`.
+-/
+namespace Cnl.C19
+open Cnl Cnl.Sqrt Cnl.SqrtSpec Cnl.SqrtProofs
+
+/-- **Built-in integers of every width.**  For every non-negative `x` of the type, `sqrt(x)`
+evaluates without undefined behaviour (in particular `root + bit` never overflows the promoted
+type), terminates, has the promoted type, and its value `r` satisfies `r² ≤ x < (r+1)²`. -/
+theorem sqrt_int_floor (T : IntTy) (hD : 1 ≤ T.digits) (x : Int) (hx0 : 0 ≤ x) (hx : x ≤ T.max) :
+    ∃ r, sqrtInt T x = .ok (promote T, r) ∧ IsFloorSqrt x r :=
+  sqrtInt_spec T hD x hx0 hx
+
+/-- `r` is *the unique* such number. -/
+theorem sqrt_floor_unique (x r r' : Int) (h : IsFloorSqrt x r) (h' : IsFloorSqrt x r') : r = r' :=
+  floor_unique h h'
+
+/-- Safety and termination spelt out: no `ub` of any kind, no divergence, no assertion. -/
+theorem sqrt_int_safe (T : IntTy) (hD : 1 ≤ T.digits) (x : Int) (hx0 : 0 ≤ x) (hx : x ≤ T.max) :
+    (∀ k, sqrtInt T x ≠ .ub k) ∧ sqrtInt T x ≠ .diverges ∧ (sqrtInt T x).isDefined = true := by
+  obtain ⟨r, h, _⟩ := sqrt_int_floor T hD x hx0 hx
+  rw [h]
+  exact ⟨fun k => by simp, by simp, rfl⟩
+
+/-- **The algorithm for any `digits_v`** (this is the form `wide_integer` uses: `D` digits on a
+storage type with at least `D` digits): for every `D ≥ 1`, every integer type `T` whose promoted
+type has at least `D` digits and every `0 ≤ x < 2^D`. -/
+theorem sqrt_generic_floor (D : Nat) (T : IntTy) (hD : 1 ≤ D) (hDP : D ≤ (promote T).digits)
+    (x : Int) (hx0 : 0 ≤ x) (hx : x < 2 ^ D) :
+    ∃ r, sqrtWith D T x = .ok (promote T, r) ∧ IsFloorSqrt x r :=
+  sqrtWith_spec D T x hD hDP hx0 hx
+
+/-- **elastic_integer<D, N>** (any `D ≥ 1`, any narrowest type for which the type exists): the
+result is an `elastic_integer<(D+1)/2, N'>` with `N'` as wide as `N`, its value is the floor of
+the root and **fits the halved digit count**, `r < 2^⌈D/2⌉`. -/
+theorem sqrt_elastic_floor (D : Nat) (N R : IntTy) (hR : elasticRep D N = some R) (hD : 1 ≤ D)
+    (x : Int) (hx0 : 0 ≤ x) (hx : x < 2 ^ D) :
+    ∃ N' r, sqrtNum (.el D (.int N)) x = .ok (.el ((D + 1) / 2) (.int N'), r) ∧ N'.bits = N.bits ∧
+      IsFloorSqrt x r ∧ FitsDigits ((D + 1) / 2) r :=
+  sqrtNum_elastic D N R hR hD x hx0 hx
+
+/-- **wide_integer<D, N>** whose storage is at least as wide as `int` (multi-word, or a 32/64/128
+bit built-in): same statement, result type unchanged. -/
+theorem sqrt_wide_floor (D : Nat) (N R : IntTy) (hN : 1 ≤ N.bits) (hR : wideRep D N = some R) (h32 : 32 ≤ R.bits)
+    (hD : 1 ≤ D) (x : Int) (hx0 : 0 ≤ x) (hx : x < 2 ^ D) :
+    ∃ r, sqrtNum (.wd D (.int N)) x = .ok (.wd D (.int N), r) ∧ IsFloorSqrt x r :=
+  sqrtNum_wide D N R hN hR h32 hD x hx0 hx
+
+/-- **scaled_integer<Rep, power<e, radix>>, even `e`, any radix ≥ 1, any representation** for
+which `sqrt` of the representation is the floor of the root: the result sits at exponent `e/2`
+and, as rationals, `(r·radix^(e/2))² ≤ x·radix^e < ((r+1)·radix^(e/2))²`. -/
+theorem sqrt_scaled_floor (rep : Ty) (e : Int) (radix : Nat) (he : e % 2 = 0) (hr : 1 ≤ radix)
+    (x : Int) (t' : Ty) (r : Int) (h : sqrtNum rep x = .ok (t', r)) (hf : IsFloorSqrt x r) :
+    sqrtNum (.sc rep e radix) x = .ok (.sc t' (e / 2) radix, r) ∧ IsScaledFloorSqrt x e radix r (e / 2) :=
+  ⟨sqrtNum_scaled rep e radix he x t' r h, scaled_of_floor x e radix hr r (e / 2) (by omega) hf⟩
+
+/-- scaled_integer over a built-in representation of any width -/
+theorem sqrt_scaled_int_floor (T : IntTy) (hD : 1 ≤ T.digits) (e : Int) (radix : Nat) (he : e % 2 = 0)
+    (hr : 1 ≤ radix) (x : Int) (hx0 : 0 ≤ x) (hx : x ≤ T.max) :
+    ∃ r, sqrtNum (.sc (.int T) e radix) x = .ok (.sc (.int (promote T)) (e / 2) radix, r) ∧
+      IsScaledFloorSqrt x e radix r (e / 2) := by
+  obtain ⟨r, h, hf⟩ := sqrt_int_floor T hD x hx0 hx
+  have h' : sqrtNum (.int T) x = .ok (.int (promote T), r) := by simp [sqrtNum, h, Res.map, bind, Res.bind]
+  exact ⟨r, sqrt_scaled_floor (.int T) e radix he hr x _ r h' hf⟩
+
+/-- scaled_integer over an elastic_integer representation -/
+theorem sqrt_scaled_elastic_floor (D : Nat) (N R : IntTy) (hR : elasticRep D N = some R) (hD : 1 ≤ D)
+    (e : Int) (radix : Nat) (he : e % 2 = 0) (hr : 1 ≤ radix) (x : Int) (hx0 : 0 ≤ x) (hx : x < 2 ^ D) :
+    ∃ N' r, sqrtNum (.sc (.el D (.int N)) e radix) x = .ok (.sc (.el ((D + 1) / 2) (.int N')) (e / 2) radix, r) ∧
+      IsScaledFloorSqrt x e radix r (e / 2) ∧ FitsDigits ((D + 1) / 2) r := by
+  obtain ⟨N', r, h, _, hf, hd⟩ := sqrt_elastic_floor D N R hR hD x hx0 hx
+  obtain ⟨h1, h2⟩ := sqrt_scaled_floor (.el D (.int N)) e radix he hr x _ r h hf
+  exact ⟨N', r, h1, h2, hd⟩
+
+/-- The start bit: the model's closed form `startShift D` (largest even number ≤ `D − 1`) is the
+value of the C++ constant expression `(digits_v<Integer> - 1) & ~1` evaluated in `int`, for every
+digit count an `int` can hold. -/
+theorem start_shift_is_cpp_constant (D : Nat) (hD : 1 ≤ D) (hD2 : D < 2 ^ 31) :
+    startShiftC D = .ok (i32, (startShift D : Int)) :=
+  startShift_cint D hD hD2
+
+/-- outside the property, for the record: a negative argument reaches `CNL_ASSERT` … -/
+theorem sqrt_negative_asserts (T : IntTy) (x : Int) (hx : x < 0) (hr : (promote T).InRange x)
+    (hs : (promote T).signed = true) :
+    sqrtInt T x = .unreachable "sqrt.h assert: x >= Integer{0}" :=
+  sqrtInt_negative T x hx hr hs
+
+/-- … and an odd exponent is rejected at compile time (`static_assert(!(Exponent & 1))`). -/
+theorem sqrt_scaled_odd_ill (rep : Ty) (e : Int) (radix : Nat) (he : e % 2 ≠ 0) (x : Int) :
+    sqrtNum (.sc rep e radix) x = .ill "static_assert(!(Exponent & 1))" := by
+  simp [sqrtNum, he]
+
+/-! Non-vacuity: the hypotheses are met by concrete non-trivial instances, and the model computes. -/
+example : sqrtInt i32 2147483647 = .ok (i32, 46340) := by decide +kernel
+example : sqrtInt u8 255 = .ok (i32, 15) := by decide +kernel
+example : sqrtInt u64 18446744073709551615 = .ok (u64, 4294967295) := by decide +kernel
+example : ∃ r, sqrtInt ⟨24, false⟩ 16777215 = .ok (i32, r) ∧ IsFloorSqrt 16777215 r :=
+  sqrt_int_floor ⟨24, false⟩ (by decide) _ (by decide) (by decide)
+example : sqrtNum (.el 40 (.int i32)) 1099511627775 = .ok (.el 20 (.int i32), 1048575) := by decide +kernel
+example : ∃ N' r, sqrtNum (.el 8 (.int u8)) 255 = .ok (.el 4 (.int N'), r) ∧ N'.bits = 8 ∧ IsFloorSqrt 255 r ∧ FitsDigits 4 r :=
+  sqrt_elastic_floor 8 u8 u8 (by decide) (by decide) 255 (by decide) (by decide)
+example : sqrtNum (.wd 200 (.int i32)) (2 ^ 200 - 1) = .ok (.wd 200 (.int i32), 2 ^ 100 - 1) := by decide +kernel
+example : ∃ r, sqrtNum (.sc (.int i16) (-8) 2) 32767 = .ok (.sc (.int i32) (-4) 2, r) ∧ IsScaledFloorSqrt 32767 (-8) 2 r (-4) :=
+  sqrt_scaled_int_floor i16 (by decide) (-8) 2 (by decide) (by decide) 32767 (by decide) (by decide)
+example : IsScaledFloorSqrt 1000 (-4) 2 31 (-2) := by decide +kernel
+example : startShiftC 31 = .ok (i32, 30) ∧ startShiftC 32 = .ok (i32, 30) ∧ startShiftC 8 = .ok (i32, 6) := by decide +kernel
+example : sqrtInt i32 (-1) = .unreachable "sqrt.h assert: x >= Integer{0}" := by decide +kernel
+
+end Cnl.C19
